@@ -42,7 +42,7 @@ func (s *TieredCompactionStrategy) SelectCompaction() (*CompactionTask, error) {
 
 	// Check L0 first (special case due to potential overlaps)
 	if len(s.levels[0]) >= s.cfg.MaxMemTables {
-		return s.selectL0Compaction()
+		return s.markDeeperData(s.selectL0Compaction())
 	}
 
 	// Check size-based conditions for other levels
@@ -58,18 +58,53 @@ func (s *TieredCompactionStrategy) SelectCompaction() (*CompactionTask, error) {
 
 		// If next level is empty, promote a file
 		if nextLevelSize == 0 && len(s.levels[level]) > 0 {
-			return s.selectPromotionCompaction(level)
+			return s.markDeeperData(s.selectPromotionCompaction(level))
 		}
 
 		// Check size ratio
 		sizeRatio := float64(thisLevelSize) / float64(nextLevelSize)
 		if sizeRatio >= s.cfg.CompactionRatio {
-			return s.selectOverlappingCompaction(level)
+			return s.markDeeperData(s.selectOverlappingCompaction(level))
 		}
 	}
 
 	// No compaction needed
 	return nil, nil
+}
+
+// markDeeperData records in the task whether files below its target level
+// overlap the key range of its inputs (see CompactionTask.HasDeeperData)
+func (s *TieredCompactionStrategy) markDeeperData(task *CompactionTask, err error) (*CompactionTask, error) {
+	if task == nil || err != nil {
+		return task, err
+	}
+
+	// Key range covered by the inputs
+	rangeInfo := &SSTableInfo{}
+	for _, files := range task.InputFiles {
+		for _, file := range files {
+			if len(rangeInfo.FirstKey) == 0 || bytes.Compare(file.FirstKey, rangeInfo.FirstKey) < 0 {
+				rangeInfo.FirstKey = file.FirstKey
+			}
+			if len(rangeInfo.LastKey) == 0 || bytes.Compare(file.LastKey, rangeInfo.LastKey) > 0 {
+				rangeInfo.LastKey = file.LastKey
+			}
+		}
+	}
+
+	for level, files := range s.levels {
+		if level <= task.TargetLevel {
+			continue
+		}
+		for _, file := range files {
+			if file.Overlaps(rangeInfo) {
+				task.HasDeeperData = true
+				return task, nil
+			}
+		}
+	}
+
+	return task, nil
 }
 
 // selectL0Compaction selects files from L0 for compaction
